@@ -15,6 +15,15 @@ class Machinery(Exception):
     """Something in the verification machinery failed (exit 2, never a violation)."""
 
 
+class Hang(Machinery):
+    """The code under test stopped making progress inside a driver (the driver's real-time watchdog wrote hang.json and
+    left with exit status 7). A check for a property that promises completion may turn this into a violation."""
+
+    def __init__(self, test, info, outdir):
+        Machinery.__init__(self, "driver %s: the code under test made no progress for %ss: %s" % (test, info.get("seconds"), json.dumps(info.get("at"))[:600]))
+        self.test, self.info, self.outdir = test, info, outdir
+
+
 def log(*a):
     print(*a, flush=True)
 
@@ -75,6 +84,9 @@ def run_harness(binary, test, env=None, timeout=900, cwd=None, allow_fail=False)
     except subprocess.TimeoutExpired:
         raise Machinery("harness driver %s timed out" % test)
     log("  driver %s: rc=%d in %.1fs" % (test, p.returncode, time.time() - t0))
+    hj = os.path.join(e.get("VERIF_OUT", ""), "hang.json")
+    if p.returncode == 7 and e.get("VERIF_OUT") and os.path.exists(hj):
+        raise Hang(test, json.load(open(hj)), e["VERIF_OUT"])
     if p.returncode != 0 and not allow_fail:
         raise Machinery("harness driver %s died (rc=%d):\n%s" % (test, p.returncode, p.stdout[-6000:]))
     return p
